@@ -288,7 +288,11 @@ def naming_guards(ctx) -> None:
     from ..guards import raising_terms
 
     # the guards may live in a new helper: raising terms are expressed over this function's arguments
-    first_loop = min((n.id for n in gv.cfg.nodes if n.kind == "for"), default=None)
+    ret_names0 = {getattr(gv.alias_root(n.ast.value, n.id), "id", None) for n in gv.return_nodes()}
+    fill_loops = [n.id for n in gv.cfg.nodes if n.kind == "for" and any(
+        m.kind == "stmt" and isinstance(m.ast, ast.Assign) and isinstance(m.ast.targets[0], ast.Subscript) and isinstance(m.ast.targets[0].value, ast.Name) and m.ast.targets[0].value.id in ret_names0
+        for m in (gv.cfg.nodes[i] for i in gv.cfg.loop_body[n.id]))]
+    first_loop = min(fill_loops) if fill_loops else min((n.id for n in gv.cfg.nodes if n.kind == "for"), default=None)
     terms = raising_terms(gv, first_loop) if first_loop is not None else raising_terms(gv, None)
     seen = set()
     ok_e = False
